@@ -1,5 +1,6 @@
 import BppProofs.Lemmas.DiscretizeHistory
 import BppProofs.Lemmas.DiscretizeFamilies
+import BppProofs.Lemmas.DiscretizeFamInst
 import BppProofs.Lemmas.DiscretizeWitness
 /-!
 # C09 — a discretised distribution is a valid partition of its continuous parent
@@ -333,5 +334,79 @@ theorem adm_equal_prob (st : MSt) (op : Op) (hsch : st.2.scheme = 1)
     rw [← ht.2]; exact hsch
   | update par dom => simp only [target] at ht; simp at ht; rw [← ht.2]; exact hsch
   | rediscretize => simp only [target] at ht; simp at ht; subst ht; exact hsch
+
+
+/-! ## families whose parent has closed forms: `H` is proved, the instances are unconditional -/
+
+/-- **exponential_H**: the transcribed `pProb`, `qProb`, `Expectation` of
+`ExponentialDiscreteDistribution` satisfy `H` on every domain, for every rate `lam > 0`
+(monotone, mutually inverse, `a·ΔP ≤ ΔE ≤ b·ΔP` from `1 + t ≤ eᵗ`). -/
+theorem exponential_H (lam lo hi : ℝ) (hl : 0 < lam) : ParentOK (expParent lam) lo hi :=
+  exponential_parentOK lam lo hi hl
+
+/-- **truncated_exponential_H**: likewise for `TruncatedExponentialDiscreteDistribution` on every
+domain below the truncation point -/
+theorem truncated_exponential_H (lam tp lo hi : ℝ) (hl : 0 < lam) (ht : 0 < tp) (hlo : lo ≤ hi) (hhi : hi ≤ tp) :
+    ParentOK (texpParent lam tp (texpCond lam tp)) lo hi :=
+  truncated_exponential_parentOK lam tp lo hi hl ht hlo hhi
+
+/-- **uniform_H**: likewise for `UniformDiscreteDistribution` on every sub-interval of its support -/
+theorem uniform_H (mn mx lo hi : ℝ) (hw : mn < mx) (h1 : mn ≤ lo) (h2 : hi ≤ mx) (hl : lo ≤ hi) :
+    ParentOK (unifParent mn mx) lo hi :=
+  uniform_parentOK mn mx lo hi hw h1 h2 hl
+
+/-- **exponential_history_valid**: an `ExponentialDiscreteDistribution` built with `n ≥ 1` classes
+and rate `> 0` is a valid partition after every history, of any length, of `setParameterValue`
+(any name; values `> 0` when accepted — refused ones leave the object unchanged),
+`setNumberOfCategories (≥ 1)`, `setMedian`, `restrictToConstraint` (any interval: refused when
+disjoint) and `discretize`.  No hypothesis on the parent is left: `H` is `exponential_H`. -/
+theorem exponential_history_valid (orc : Parent ℝ) (n : Nat) (lam : ℝ) (f : FamSt ℝ) (ops : List FOp)
+    (hn : 1 ≤ n) (hl : 0 < lam) (hc : construct orc .exp n lam 0 0 false 1 = .ok f)
+    (hreg : ∀ op ∈ ops, op.regular) :
+    Valid (frun orc f ops).dd ∧ Pre (frun orc f ops).dd ∧ 0 < (frun orc f ops).p1 := by
+  have := exp_run orc f ops hreg (exp_construct orc n lam f hn hl hc)
+  exact ⟨this.good.valid, this.good.pre, this.rate⟩
+
+/-- **uniform_history_valid**: the same for `UniformDiscreteDistribution(n, a, b)`, `a ≠ b`; the
+domain stays inside the support `[min(a,b), max(a,b)]`. -/
+theorem uniform_history_valid (orc : Parent ℝ) (n : Nat) (a b : ℝ) (f : FamSt ℝ) (ops : List FOp)
+    (hn : 1 ≤ n) (hab : a ≠ b) (hc : construct orc .unif n a b 0 false 1 = .ok f)
+    (hreg : ∀ op ∈ ops, op.regular) :
+    Valid (frun orc f ops).dd ∧ Pre (frun orc f ops).dd ∧
+      (frun orc f ops).p1 ≤ (frun orc f ops).dd.dom.lo ∧ (frun orc f ops).dd.dom.hi ≤ (frun orc f ops).p2 := by
+  have := unif_run orc f ops hreg (unif_construct orc n a b f hn hab hc)
+  exact ⟨this.good.valid, this.good.pre, this.lo, this.hi⟩
+
+/-! ## non-vacuity: the hypotheses are met by concrete states (exact rationals, same program text) -/
+
+/-- mean-valued classes of the piecewise-linear parent: resolved, discretisation returns, all
+clauses hold, the discrete mean is the parent's mean 1 -/
+example :
+    resolved Witness.plParent (Witness.plState false 1) = true ∧
+    (match eqProp Witness.plParent (Witness.plState false 1) with
+     | .ok s => nClassesOk s && probsNonneg s && probsSumOne 0 s && boundsMonoInDom s && valuesStrictMono s &&
+         valuesInClass s && equalMass s && (discreteMean s == 1)
+     | .error _ => false) = true := by
+  constructor <;> decide +kernel
+
+/-- the equal-interval scheme and the scheme with fallback on the uniform parent, 5 classes -/
+example :
+    (let s := eqInt Witness.unif01 (Witness.unifState 5 false 2)
+     nClassesOk s && probsNonneg s && probsSumOne 0 s && boundsMonoInDom s && valuesStrictMono s && valuesInClass s) = true ∧
+    (match discretize Witness.unif01 (Witness.unifState 5 true 3) with
+     | .ok s => nClassesOk s && probsSumOne 0 s && valuesInClass s && (s.cats == [1/10, 3/10, 1/2, 7/10, 9/10])
+     | .error _ => false) = true := by
+  constructor <;> decide +kernel
+
+/-- `H` is satisfiable: the uniform parent on `[0,1]`, the exponential parent on `[0,5]` -/
+example : ParentOK (unifParent 0 1) 0 1 ∧ ParentOK (expParent 2) 0 5 :=
+  ⟨uniform_H 0 1 0 1 (by norm_num) le_rfl le_rfl (by norm_num), exponential_H 2 0 5 (by norm_num)⟩
+
+/-- look-ups and cumulative queries on a concrete 4-class state -/
+example :
+    getCategoryIndex Witness.fourClasses 2 = .ok 2 ∧ getValueCategory Witness.fourClasses (5/2) = .ok (5/2) ∧
+    cInf Witness.fourClasses (5/2) = 1/2 ∧ cIInf Witness.fourClasses (5/2) = 3/4 ∧
+    cSup Witness.fourClasses (5/2) = 1/4 ∧ cSSup Witness.fourClasses (5/2) = 1/2 := by
+  refine ⟨?_, ?_, ?_, ?_, ?_, ?_⟩ <;> decide +kernel
 
 end Bpp.C09
